@@ -43,6 +43,7 @@ InitSt == [ H     |-> <<>>,   \* handle id -> handle record (see MkH)
             oor   |-> FALSE,  \* some value left the 32-bit-safe range (Rat.OOR): the trace is out_of_model from here on
             track |-> TRUE,   \* graph tracking switch (no_autodiff scopes)
             tsaved |-> <<>>,  \* values of `track` saved by the enclosing no_autodiff scopes
+            hb    |-> {},     \* handles that are views of an intermediate result the user never sees (multi_matmul with a 1-D end)
             pend  |-> {},     \* handles with a consumer the in-place machinery failed to re-route (F-C09-1 not yet manifest)
             kf    |-> {},     \* known-finding triggers this history has passed (DESIGN 4.4 / section 7)
             exc   |-> "none"  \* exception class the last statement is predicted to raise
@@ -120,14 +121,20 @@ NullOnUse(st, hs) ==
 \* keep their gradients, and - constant-ness not being inferred from a graph - a float result is non-constant
 \* unless the `constant` keyword says otherwise.
 \* lay : index map of the result into its own fresh buffer (identity = C order); cells are given in LOGICAL order
-MkResultL(st, s, sh, cells, os, lay) ==
+\* viewused : operand handles the operation consumes through an internal VIEW operation (multi_matmul's 1-D ends go through
+\*            expand_dims): like the parent of any view they keep their gradient, and a stale one detaches (MkView)
+MkResultV(st, s, sh, cells, os, lay, viewused) ==
   LET n == Len(cells)
       memcells == IF lay = Iota(n) THEN cells
                   ELSE LET inv == [c \in 1..n |-> CHOOSE p \in 1..n : lay[p] = c] IN TLCEval([c \in 1..n |-> cells[inv[c]]])
   IN
   IF st.track THEN
     LET const == ResConst(st, os, Kw(s, "kw", <<>>))
-        st0 == [NullOnUse(st, OpHandles(os)) EXCEPT !.kf = IF OpHandles(os) \cap st.pend # {} THEN @ \cup {"F-C09-1"} ELSE @]
+        stn == NullOnUse(st, OpHandles(os) \ viewused)
+        stv == [stn EXCEPT !.H = [h \in DOMAIN @ |-> IF h \in viewused /\ @[h].base # 0 /\ ~HasCr(st, h)
+                                                      THEN [@[h] EXCEPT !.base = 0, !.par = 0, !.gc = 0] ELSE @[h]],
+                           !.g = [h \in DOMAIN @ |-> IF h \in viewused /\ st.H[h].base # 0 /\ ~HasCr(st, h) THEN Unspec ELSE @[h]]]
+        st0 == [stv EXCEPT !.kf = IF OpHandles(os) \cap st.pend # {} THEN @ \cup {"F-C09-1"} ELSE @]
         st1 == NewBuf(st0, memcells, const)
         st2 == NewNodeB(st1, OpNodes(st, os), const, TRUE, Len(st1.mem))
     IN PutH(st2, s.h, MkH("t", Len(st1.mem), lay, sh, const, Len(st2.N), 0, 0))
@@ -136,6 +143,7 @@ MkResultL(st, s, sh, cells, os, lay) ==
         st1 == NewBuf(st, [i \in 1..n |-> DC(memcells[i].v)], const)
         st2 == NewNodeB(st1, <<>>, const, FALSE, Len(st1.mem))
     IN PutH(st2, s.h, MkH("t", Len(st1.mem), lay, sh, const, Len(st2.N), 0, 0))
+MkResultL(st, s, sh, cells, os, lay) == MkResultV(st, s, sh, cells, os, lay, {})
 MkResult(st, s, sh, cells, os) == MkResultL(st, s, sh, cells, os, Iota(Len(cells)))
 
 \* memory layout NumPy gives the output of an elementwise operation on these operands ("K" order, lib/Arr)
@@ -397,6 +405,22 @@ ApplyOp(st, s) ==
             tm == MatmulTerms(sa, sb)
         IN MkResult(st, s, MatmulShape(sa, sb),
                     [p \in 1..Len(tm) |-> DSumSeq([k \in 1..Len(tm[p]) |-> DMul(ca[tm[p][k][1]], cb[tm[p][k][2]])])], os)
+    [] f = "multimatmul" ->   \* os[1] @ os[2] @ ... ; every operand 2-D, the first and the last possibly 1-D (row / column)
+        LET RECURSIVE Fold(_, _, _)
+            Fold(i, sh, c) ==
+              IF i > Len(os) THEN [sh |-> sh, c |-> c]
+              ELSE LET sb == OpSh(st, os[i]) cb == OpCells(st, os[i]) tm == MatmulTerms(sh, sb)
+                   IN Fold(i + 1, MatmulShape(sh, sb),
+                           TLCEval([p \in 1..Len(tm) |-> DSumSeq([k \in 1..Len(tm[p]) |-> DMul(c[tm[p][k][1]], cb[tm[p][k][2]])])]))
+            r == Fold(2, OpSh(st, os[1]), OpCells(st, os[1]))
+            \* a 1-D end of a chain of three or more goes through expand_dims: a VIEW use of that operand
+            ends == IF Len(os) < 3 THEN {} ELSE {i \in {1, Len(os)} : Len(OpSh(st, os[i])) = 1}
+            st1 == MkResultV(st, s, r.sh, r.c, os, Iota(Len(r.c)), UNION {OpHandles(<<os[i]>>) : i \in ends})
+            \* with three or more operands and exactly one 1-D end the result is handed out as a view (`reshape(-1)`) of the
+            \* 2-D product, a tensor the caller never holds: `.base` is not None (with two 1-D ends it is the copy `[0, 0]`).  Nothing else about it is modelled (the
+            \* generator does not re-use such a result after its graph is cleared).
+            hidden == Len(os) >= 3 /\ ((Len(OpSh(st, os[1])) = 1) # (Len(OpSh(st, os[Len(os)])) = 1)) /\ st.track
+        IN IF hidden THEN [st1 EXCEPT !.hb = @ \cup {s.h}] ELSE st1
     [] f = "where" ->    \* s.cond : constant boolean array [sh, v]; operands x, y
         LET sx == OpSh(st, os[1]) sy == OpSh(st, os[2]) sh == BShape3(s.cond.sh, sx, sy)
             gc == BGather(s.cond.sh, sh) gx == BGather(sx, sh) gy == BGather(sy, sh)
@@ -709,7 +733,7 @@ ObsGrad(st, h) ==
   IF src = 0 THEN None
   ELSE IF IsUnspec(st.g[src]) THEN Unspec
   ELSE Some([k \in 1..Len(r.imap) |-> st.g[src].v[r.imap[k]]])      \* an owner's gradient is stored per buffer cell
-ObsBase(st, h) == LET b == st.H[h].base IN IF b # 0 /\ ~st.H[b].live THEN -1 ELSE b
+ObsBase(st, h) == LET b == st.H[h].base IN IF h \in st.hb THEN -1 ELSE IF b # 0 /\ ~st.H[b].live THEN -1 ELSE b
 \* ------------------------------------------------------------------ other statements
 \* (clear_graph has no staleness guard: with a pending F-C09-1 consumer the traversal may cross into the mutated
 \*  tensor's new graph - the known finding becomes manifest)
